@@ -211,14 +211,42 @@ Definition holds_perm_costs (c : perm_case) : bool :=
         v_eq_b v && (v_cost_b v =? 0) && data_eqb (v_tb v0) (v_tb v)) (pc_vars c)
   end.
 
-(* D40: some mapping has keys that < does not order totally (mixed types), the canonical sort then depends on the file
-   order, and among equal-cost matchings a different one is chosen: ONLY the pairing clause fails, all costs agree *)
-Definition kf_C08_mixed_key_pairing (c : c08_case) : bool :=
+(* the copy clauses of holds_perm alone: every permuted copy is == to the document as given, equal as data, at cost 0 *)
+Definition holds_perm_copies (c : perm_case) : bool :=
+  match pc_vars c with
+  | [] => true
+  | v0 :: _ =>
+      forallb (fun v =>
+        v_eq_a v && (v_cost_a v =? 0) && data_eqb (v_ta v0) (v_ta v) &&
+        v_eq_b v && (v_cost_b v =? 0) && data_eqb (v_tb v0) (v_tb v)) (pc_vars c)
+  end.
+
+(* every recorded script is a well-formed script that honours the matching options at every level (ScriptSpec: C01
+   valid, C03 additive, C10 restricted - under 'auto' every key present in both mappings is paired with itself, at
+   every level the script descends to) *)
+Definition scripts_wellformed (c : perm_case) : bool :=
+  forallb (fun v => valid (v_ta v) (v_tb v) (v_edit v) && additive (v_edit v) && restricted (v_ta v) (v_tb v) (v_edit v))
+          (pc_vars c).
+
+(* D40, by mechanism: some mapping has keys that < does not order totally (mixed types), so sorted() in
+   DictNode.from_dict is not canonical and the order of the DictNode's children follows the file; the matcher then
+   resolves the choice among the pairs it is FREE to choose (keys not shared, or any pair under 'match') by that order,
+   and since it minimises the matched edges only, the total cost as well as the pairing may differ.  In the class:
+   a DictNode strategy (under 'none' there is no matcher: fully judged), unordered keys in one of the two documents,
+   all copy clauses hold, and every arrangement's script is valid, additive and restricted - in particular under 'auto'
+   every shared key is still paired with itself in every arrangement (a shared key paired elsewhere, removed or
+   inserted is NOT in the class). *)
+Definition kf_C08_mixed_key_order (c : c08_case) : bool :=
   match c with
-  | CPerm c => negb (holds_perm c) && holds_perm_costs c && (has_unordered_keys (pc_a c) || has_unordered_keys (pc_b c))
+  | CPerm c =>
+      negb (holds_perm c) && o_ake (pc_opts c) &&
+      (has_unordered_keys (pc_a c) || has_unordered_keys (pc_b c)) &&
+      holds_perm_copies c && scripts_wellformed c
   | _ => false
   end.
+(* the name under which D40 was first listed *)
+Definition kf_C08_mixed_key_pairing := kf_C08_mixed_key_order.
 
 (* the statement with the open classes carved out *)
 Definition holds_C08_partial (c : c08_case) : bool :=
-  holds_C08 c || kf_C08_swap_cross_type c || kf_C08_swap_zero_size c || kf_C08_mixed_key_pairing c.
+  holds_C08 c || kf_C08_swap_cross_type c || kf_C08_swap_zero_size c || kf_C08_mixed_key_order c.
